@@ -157,6 +157,7 @@ type vC04Sc struct {
 	Key, Other string
 	Op         string // search | get
 	Quorum     int    // -1: option not given
+	Offline    bool   // routing.Offline given: the quorum is ignored (the network is still searched)
 	MaxDelay   int
 	CancelAt   time.Duration
 	FailFrac   float64
@@ -215,6 +216,7 @@ func vC04GenSc(c *vh.Case, op string) vC04Sc {
 	sc.Key = fmt.Sprintf("/v/key-%d-%d", c.Idx, r.Int63())
 	sc.Other = fmt.Sprintf("/v/other-%d-%d", c.Idx, r.Int63())
 	sc.Quorum = []int{-1, 0, 1, 2, k}[r.Intn(5)]
+	sc.Offline = r.Intn(12) == 0
 	sc.MaxDelay = []int{5, 50, 400}[r.Intn(3)]
 	sc.FailFrac = []float64{0, 0, 0.15, 0.35}[r.Intn(4)]
 	sc.HolderFrac = []float64{0, 0.1, 0.4, 0.9}[r.Intn(4)]
@@ -438,6 +440,9 @@ func vC04Run(t *testing.T, c *vh.Case, sc vC04Sc) *vC04Res {
 	if sc.Quorum >= 0 {
 		opts = append(opts, Quorum(sc.Quorum))
 	}
+	if sc.Offline {
+		opts = append(opts, routing.Offline)
+	}
 	res.Start = time.Now()
 	if localRec != nil {
 		s := vC04Supply{Local: true, VT: res.Start, HasRec: true, RecKey: string(localRec.GetKey()), Val: localRec.GetValue(), Kind: localKind}
@@ -611,7 +616,7 @@ func vC04Judge(c *vh.Case, res *vC04Res) {
 // every valid answer reaches it, so the abort happened iff more than `quorum` valid supplies exist.
 func vC04Aborted(res *vC04Res) bool {
 	q := res.sc.Quorum
-	if q <= 0 {
+	if q <= 0 || res.sc.Offline {
 		return false
 	}
 	nv := 0
@@ -631,6 +636,7 @@ func vC04Describe(c *vh.Case, res *vC04Res) string {
 	c.Set("knowledge", sc.Cfg.Knowledge)
 	c.Set("table_size", res.tableSize)
 	c.Set("quorum", sc.Quorum)
+	c.Set("offline_option", sc.Offline)
 	c.Set("local", sc.Local)
 	c.Set("holder_frac", sc.HolderFrac)
 	c.Set("fail_frac", sc.FailFrac)
@@ -651,11 +657,18 @@ func vC04Describe(c *vh.Case, res *vC04Res) string {
 		}
 		order = append(order, fmt.Sprintf("%s:%s:%s:%v", who, s.Kind, d, s.Valid))
 	}
+	logged, norec := 0, 0
 	for i, o := range order {
-		if i < 40 {
+		if !res.Supplies[i].HasRec {
+			norec++
+			continue
+		}
+		if logged < 40 {
+			logged++
 			c.Logf("supply +%v %s", res.Supplies[i].VT.Sub(res.Start), o)
 		}
 	}
+	c.Logf("%d answers without a record", norec)
 	for i, e := range res.Emis {
 		c.Logf("yield %d +%v %s", i, e.VT.Sub(res.Start), vC04Short(e.Val))
 	}
@@ -679,10 +692,10 @@ func vC04Nontrivial(res *vC04Res) bool {
 	return len(ranks) >= 1 && (len(ranks) >= 2 || bad >= 1)
 }
 
-const vC04Rule = "PRNG networks (N 1-200, thorough up to 700; K in {1,2,3,5,8,20}, alpha in {1,2,3,10}, beta in {1,2,3,K}; knowledge full/kbucket/sparse; 0-35% responders dead/erroring/silent); each responder and the local store hold one of {valid value from a pool of 1-4 values with ranks 1-5 (ties, shared bytes), stale, flagged invalid, expired, expiring during the search, record filed under another key (value valid for the requested key / for the other key), value embedding another key, empty, nil value, nil record, garbage, missing}; quorum in {unset,0,1,2,K}; latencies 1-400 ms decide arrival order; 1/6 cancelled at a PRNG instant; immediate consumer; oracle over the GET_VALUE answers in the simulated wire log + local record + generated validator evaluated on the virtual clock; non-trivial = at least one valid supply and (two ranks or a rejected/mis-keyed record); distinct by (shape, quorum, local kind, arrival order of supplies)"
+const vC04Rule = "PRNG networks (N 1-200, thorough up to 700; K in {1,2,3,5,8,20}, alpha in {1,2,3,10}, beta in {1,2,3,K}; knowledge full/kbucket/sparse; 0-35% responders dead/erroring/silent); each responder and the local store hold one of {valid value from a pool of 1-4 values with ranks 1-5 (ties, shared bytes), stale, flagged invalid, expired, expiring during the search, record filed under another key (value valid for the requested key / for the other key), value embedding another key, empty, nil value, nil record, garbage, missing}; quorum in {unset,0,1,2,K}, 1/12 with routing.Offline; latencies 1-400 ms decide arrival order; 1/6 cancelled at a PRNG instant; immediate consumer; oracle over the GET_VALUE answers in the simulated wire log + local record + generated validator evaluated on the virtual clock; non-trivial = at least one valid supply and (two ranks or a rejected/mis-keyed record); distinct by (shape, quorum, local kind, arrival order of supplies)"
 
 func TestVerif_C04_search(t *testing.T) {
-	vh.Run(t, vh.Spec{Prop: "C04", Unit: "search", Quick: 400, Thorough: 20000, CostMs: 15, Rule: "SearchValue; " + vC04Rule,
+	vh.Run(t, vh.Spec{Prop: "C04", Unit: "search", Quick: 1200, Thorough: 40000, CostMs: 6, Rule: "SearchValue; " + vC04Rule,
 		Clauses: []string{"yielded-validates", "yielded-valid-and-supplied", "strictly-improving", "final-ranks-best", "nothing-valid-not-found", "other-key-record-seen", "rejected-record-seen"}},
 		func(c *vh.Case) {
 			sc := vC04GenSc(c, "search")
@@ -698,7 +711,7 @@ func TestVerif_C04_search(t *testing.T) {
 }
 
 func TestVerif_C04_getvalue(t *testing.T) {
-	vh.Run(t, vh.Spec{Prop: "C04", Unit: "getvalue", Quick: 300, Thorough: 15000, CostMs: 15, Rule: "GetValue; " + vC04Rule,
+	vh.Run(t, vh.Spec{Prop: "C04", Unit: "getvalue", Quick: 800, Thorough: 30000, CostMs: 6, Rule: "GetValue; " + vC04Rule,
 		Clauses: []string{"yielded-valid-and-supplied", "final-ranks-best", "nothing-valid-not-found", "get-value-xor-error", "other-key-record-seen", "rejected-record-seen"}},
 		func(c *vh.Case) {
 			sc := vC04GenSc(c, "get")
@@ -752,7 +765,7 @@ type vC04PkSc struct {
 }
 
 func TestVerif_C04_pubkey(t *testing.T) {
-	vh.Run(t, vh.Spec{Prop: "C04", Unit: "pubkey", Quick: 200, Thorough: 8000, CostMs: 12,
+	vh.Run(t, vh.Spec{Prop: "C04", Unit: "pubkey", Quick: 500, Thorough: 15000, CostMs: 5,
 		Rule:    "GetPublicKey for a peer whose ID does not inline its key (deterministic ECDSA P-256 keys; 8% Ed25519 inlined IDs as control) on PRNG networks (N 3-80); the target node itself is absent / serves the right key / another peer's key / garbage / no record / a record filed under another /pk key / is dead / silent; each DHT responder holds for /pk/<id> the right key, another peer's key, garbage, a mis-keyed record or nothing; local store missing / right / wrong (raw write); optional key already in the peerstore; 10% cancelled; oracle: a returned key hashes to the requested ID, and an error is returned only if no answer returned strictly earlier (nor local storage) supplied the right key under the right record key; non-trivial = at least one wrong/garbage/mis-keyed record was served and judged; distinct by (shape, node behaviour, arrival order of supplies)",
 		Clauses: []string{"pubkey-hashes-to-id", "pubkey-found-if-supplied", "wrong-key-served"}},
 		func(c *vh.Case) {
